@@ -26,8 +26,12 @@ type ModeGroup struct {
 	// Branch: "" none; "lead": the group starts with JMP to a label at its end (first statement after
 	// the directive is a label reference); "far": after the instructions a Jcc over 200 reserved bytes
 	// (in 16-bit mode this needs widening, i.e. a second assembly round)
+	// "num": after the instructions one branch whose target is written relative to `$` (NumOp $+NumK): a
+	// numeric target, always the near form, position independent
 	Branch string `json:"branch,omitempty"`
 	Tag    int    `json:"tag,omitempty"`
+	NumOp  string `json:"numop,omitempty"`
+	NumK   int    `json:"numk,omitempty"`
 }
 
 type BitsCase struct {
@@ -36,7 +40,12 @@ type BitsCase struct {
 	// its BITS directive); the program bytes are then the .text section of the object. The output format must
 	// not have a say in the encoding mode.
 	FormatAt int `json:"formatat,omitempty"`
+	// Tail: the program ends with "DD $" (flat binaries only): the value must be the number of bytes in
+	// front of it, i.e. every statement was also *sized* for the mode in force.
+	Tail bool `json:"tail,omitempty"`
 }
+
+func (c *BitsCase) tail() bool { return c.Tail && c.FormatAt == 0 }
 
 func bitsDirective(m int) string {
 	switch m {
@@ -58,6 +67,13 @@ func (g *ModeGroup) body() string {
 	}
 	if g.Branch == "far" {
 		fmt.Fprintf(&sb, "\tJNE zzfar%d\n\tRESB 200\nzzfar%d:\n", g.Tag, g.Tag)
+	}
+	if g.Branch == "num" {
+		if g.NumK < 0 {
+			fmt.Fprintf(&sb, "\t%s $-0x%x\n", g.NumOp, -g.NumK)
+		} else {
+			fmt.Fprintf(&sb, "\t%s $+0x%x\n", g.NumOp, g.NumK)
+		}
 	}
 	for _, d := range g.Data {
 		sb.WriteString("\t" + d + "\n")
@@ -82,6 +98,9 @@ func (c *BitsCase) source() string {
 			sb.WriteString(l + "\n")
 		}
 		sb.WriteString(g.body())
+	}
+	if c.tail() {
+		sb.WriteString("\tDD $\n")
 	}
 	return sb.String()
 }
@@ -146,14 +165,22 @@ func checkC17(c BitsCase) Verdict {
 		segs = append(segs, rg.Out)
 		cat = append(cat, rg.Out...)
 	}
+	if c.tail() {
+		n := len(cat)
+		cat = append(cat, byte(n), byte(n>>8), byte(n>>16), byte(n>>24))
+		segs = append(segs, cat[n:])
+	}
 	if !bytes.Equal(r.Out, cat) {
+		if c.tail() && len(r.Out) == len(cat) && bytes.Equal(r.Out[:len(cat)-4], cat[:len(cat)-4]) {
+			return fail("tail", "the closing DD $ holds % x, but %d bytes were emitted in front of it: some statement was sized for another mode than it was encoded for", r.Out[len(cat)-4:], len(cat)-4)
+		}
 		at := 0
 		for at < len(cat) && at < len(r.Out) && cat[at] == r.Out[at] {
 			at++
 		}
 		gi, acc := 0, 0
 		for i, s := range segs {
-			gi = i
+			gi = min(i, len(c.Groups)-1)
 			if at < acc+len(s) {
 				break
 			}
@@ -210,6 +237,21 @@ func checkC17(c BitsCase) Verdict {
 				return fail("farbranch|mode="+fmt.Sprint(m), "group %d (%d-bit): JNE over 200 reserved bytes decodes as %q (% x)", i, m, x86asm.IntelSyntax(inst, 0, nil), b[off:off+inst.Len])
 			}
 			off += inst.Len + 200
+		}
+		if g.Branch == "num" {
+			if off >= len(b) {
+				return fail("numbranch", "group %d (%d-bit): bytes end before the %s", i, m, g.NumOp)
+			}
+			inst, err := x86asm.Decode(b[off:], m)
+			if err != nil {
+				return fail("numbranch", "group %d (%d-bit): %s $%+d does not decode at offset %d: %v", i, m, g.NumOp, g.NumK, off, err)
+			}
+			rel, isRel := inst.Args[0].(x86asm.Rel)
+			if sem.CanonOp(inst.Op.String()) != sem.CanonOp(g.NumOp) || !isRel || inst.Len+int(rel) != g.NumK || inst.DataSize != m {
+				return fail("numbranch|mode="+fmt.Sprint(m), "group %d (%d-bit): %s $%+d decodes as %q with a %d-bit displacement (% x)", i, m, g.NumOp, g.NumK, x86asm.IntelSyntax(inst, 0, nil), inst.DataSize, b[off:off+inst.Len])
+			}
+			off += inst.Len
+			sens = true
 		}
 		if !sens {
 			modeSensitive = false
@@ -298,13 +340,17 @@ func genModeGroup(t *rapid.T, mode, eff int, first bool, used map[string]bool, p
 		d, _ := genDataStmt(t)
 		g.Data = append(g.Data, d)
 	}
-	g.Branch = rapid.SampledFrom([]string{"", "", "", "lead", "far"}).Draw(t, "gbranch")
+	g.Branch = rapid.SampledFrom([]string{"", "", "", "lead", "far", "num", "num"}).Draw(t, "gbranch")
+	if g.Branch == "num" {
+		g.NumOp = rapid.SampledFrom([]string{"JMP", "CALL", "JE", "JNE", "JB", "JGE"}).Draw(t, "numop")
+		g.NumK = rapid.SampledFrom([]int{0x300, 0x1234, -0x200, 0x7000, 0x90, -0x90}).Draw(t, "numk")
+	}
 	return g
 }
 
 var propC17 = &Prop[BitsCase]{
 	ID:   "C17",
-	Rule: "programs of 1..5 label-free instruction groups (register, immediate and memory-operand forms; one group in three repeats the statement texts of an earlier group), each optionally preceded by a [BITS 16]/[BITS 32] directive (none at all for the first group = default mode; repeated modes and 16->32->16 included) with comments, EQU, GLOBAL/EXTERN, other bracket directives and data lines before and after the directive, one program in six with a [FORMAT \"WCOFF\"] line in front of some group (the bytes are then the object's .text); oracle (1) metamorphic: out(P) = concatenation of the groups assembled alone under their effective mode, (2) reference: every group decodes under its effective mode (x86asm) to exactly the instructions written (this pins 'no directive = 16-bit'); non-trivial = every group holds an instruction whose encoding differs between the modes; distinct by source text",
+	Rule: "programs of 1..5 label-free instruction groups (register, immediate and memory-operand forms; one group in three repeats the statement texts of an earlier group), each optionally preceded by a [BITS 16]/[BITS 32] directive (none at all for the first group = default mode; repeated modes and 16->32->16 included) with comments, EQU, GLOBAL/EXTERN, other bracket directives and data lines before and after the directive, one group in four closed by a branch to a numeric target written relative to `$` (JMP/CALL/Jcc $+K), every second flat program closed by `DD $` (its value must equal the number of bytes in front of it: the statements were also sized for their mode), one program in six with a [FORMAT \"WCOFF\"] line in front of some group (the bytes are then the object's .text); oracle (1) metamorphic: out(P) = concatenation of the groups assembled alone under their effective mode, (2) reference: every group decodes under its effective mode (x86asm) to exactly the instructions written (this pins 'no directive = 16-bit'); non-trivial = every group holds an instruction whose encoding differs between the modes; distinct by source text",
 	Gen: func(t *rapid.T) BitsCase {
 		var c BitsCase
 		used := map[string]bool{}
@@ -325,6 +371,7 @@ var propC17 = &Prop[BitsCase]{
 		if rapid.IntRange(0, 5).Draw(t, "wcoff") == 0 {
 			c.FormatAt = 1 + rapid.IntRange(0, len(c.Groups)-1).Draw(t, "formatat")
 		}
+		c.Tail = rapid.IntRange(0, 1).Draw(t, "tail") == 0
 		return c
 	},
 	Check: checkC17,
